@@ -3,6 +3,7 @@ import IgrisModel.C14.Access   -- core Lean only: operator[] / front / back
 import IgrisModel.C14.Exc      -- core Lean only: the member functions with a throwing element constructor
 import IgrisModel.C14.Lemmas   -- core Lean only; for the reference machines `specStep` / `specSStep`
 import IgrisModel.C14.Model3   -- core Lean only: w-bit counter machine, writes, erase with a throwing assignment, unbounded_array storage model
+import IgrisModel.C14.Model3b  -- core Lean only: both kinds of throw on the w-bit machine, unbounded_array with throwing constructors / allocator
 open Igris.Proto Igris.C14
 
 inductive St where
@@ -209,30 +210,24 @@ def stepLine (st : St) (line : String) : St × String :=
             | some x => (.sv x c m, s!"w={x} slots={(rawStore c.N).length}")
             | none => (st, "bad-op")
         | "thra" :: a :: "erase" :: rest =>
-            -- `thra a erase r i j`: the (a+1)-th element move-assignment inside erase throws
+            -- `thra a erase r i j`: the (a+1)-th element move-assignment inside erase throws (w-bit machine `stepTW`)
             match a.toNat?, nats rest with
             | some a, some [r, i, j] =>
                 if !c.trk || c.port then (st, "bad")
                 else
-                match decide (r < c.K), m.regs r with
-                | true, some v =>
-                    if i ≤ j ∧ j ≤ v.size then
-                      match eraseX c.trk v i j a with
-                      | .error f => (.dead, showFault f)
-                      | .ok (v', tr, t) =>
-                          let ev := glob r r tr
-                          let m' := (m.log (setReg m.regs r (some v')) ev).1
-                          (.sv wd c m', s!"{showRegs c m'} | {showEvents c ev} | {toString (m'.nctor - m'.ndtor)} | {if t then "threw" else "done"}")
-                    else (st, "bad")
-                | _, _ => (st, "bad")
+                match stepTW wd c m (.erase r i j) 0 a with
+                | .error f => (.dead, showFault f)
+                | .ok (m', none, _) => (.sv wd c m', "bad")
+                | .ok (m', some ev, t) =>
+                    (.sv wd c m', s!"{showRegs c m'} | {showEvents c ev} | {toString (m'.nctor - m'.ndtor)} | {if t then "threw" else "done"}")
             | _, _ => (st, "bad-op")
         | "thr" :: k :: rest =>
-            -- `thr k <op>`: the (k+1)-th element construction of the operation throws
+            -- `thr k <op>`: the (k+1)-th element construction of the operation throws (no assignment does)
             match k.toNat?, parseOp rest with
             | some k, some op =>
                 if !c.trk then (st, "bad")   -- `int` has no constructor that could throw
                 else
-                match stepX c m op k with
+                match stepTW wd c m op k (2 ^ 64) with
                 | .error f => (.dead, showFault f)
                 | .ok (m', none, _) => (.sv wd c m', "bad")
                 | .ok (m', some ev, t) =>
@@ -316,6 +311,23 @@ def stepLine (st : St) (line : String) : St × String :=
               | some es => s!"{r}:{es.length}/{c.N - es.length}:{showBytesH es}")
             (.ssH c sp', s!"{so} | {regs}")
     | .ua trk K m =>
+        -- `uthr k <op>`: the (k+1)-th element construction of the operation throws; `ubad <op>`: its allocation fails
+        let thrown (b : Nat) (al : Bool) (rest : List String) : St × String :=
+          match parseUOp rest with
+          | none => (st, "bad-op")
+          | some op =>
+            match ustepSX K m op b al with
+            | .error f => (.dead, showFault f)
+            | .ok none => (st, "bad")
+            | .ok (some (m', t)) =>
+                (.ua trk K m', s!"{showURegs K m'} | {if trk then toString (liveU K m') else "-"} | {if t then "threw" else "done"}")
+        match w with
+        | "uthr" :: k :: rest =>
+            match k.toNat? with
+            | some k => if !trk then (st, "bad") else thrown k true rest
+            | none => (st, "bad-op")
+        | "ubad" :: rest => thrown (2 ^ 64) false rest
+        | _ =>
         match parseUOp w with
         | none => (st, "bad-op")
         | some op =>
